@@ -265,6 +265,18 @@ func (vc *VC) ghostField(sc *SpecScope, v *Value, name string) (comp string, T t
 	}
 	key := n.Obj().Pkg().Path() + "." + n.Obj().Name() + "." + name
 	g := vc.w.Ghosts[key]
+	if g == nil && isInterface(T0) {
+		// an interface value viewed through another interface type: the ghost field is found by name if unique
+		for k, cand := range vc.w.Ghosts {
+			if cand.Name == name {
+				if g != nil {
+					vc.specFail(sc, "ambiguous ghost field %s", name)
+				}
+				g = cand
+				key = k
+			}
+		}
+	}
 	if g == nil {
 		vc.specFail(sc, "undeclared ghost field %s", key)
 	}
@@ -620,6 +632,14 @@ func (vc *VC) specCall(sc *SpecScope, x *SCall) *Value {
 				// sliceOf(a, b, i, j): a is b[i:j] (same backing array)
 				as := args()
 				return boolV(smtAnd(smtEq(as[0].Arr, as[1].Arr), smtEq(as[0].Off, app("+", as[1].Off, as[2].Term)), smtEq(as[0].Len, app("-", as[3].Term, as[2].Term))))
+			case "nilOrFresh":
+				// a slice that is either nil (and empty) or lives in a backing array allocated by this call
+				a := args()[0]
+				oldAlloc := "Alloc0"
+				if sc.old != nil {
+					oldAlloc = sc.old.alloc
+				}
+				return boolV(smtOr(smtAnd(smtEq(a.Arr, "0"), smtEq(a.Len, "0")), smtAnd(smtNot(smtEq(a.Arr, "0")), smtNot(sel(oldAlloc, a.Arr)), sel(sc.cur.alloc, a.Arr))))
 			case "isnil":
 				a := args()[0]
 				if a.K == VSlice {
@@ -631,6 +651,20 @@ func (vc *VC) specCall(sc *SpecScope, x *SCall) *Value {
 				oldc := &SCall{Fun: &SIdent{"old"}, Args: x.Args}
 				ov := vc.evalSpec(sc, oldc)
 				return boolV(vc.deepEq(sc, cur, sc.cur, ov, sc.old))
+			case "sameOutside":
+				// sameOutside(s): every cell of s's backing array outside s[0:len(s)] has its old value
+				a := args()[0]
+				if a.K != VSlice || sc.old == nil {
+					vc.specFail(sc, "sameOutside needs a slice and an old state")
+				}
+				et := under(a.T).(*types.Slice).Elem()
+				var cs []string
+				vc.leafComps(elemCompPrefix(et), et, 2, func(comp, srt string) {
+					cur := vc.heapGet(sc.cur, comp, srt)
+					old := vc.heapGet(sc.old, comp, srt)
+					cs = append(cs, "(forall ((i!o Int)) (! (=> (or (< i!o "+a.Off+") (>= i!o (+ "+a.Off+" "+a.Len+"))) (= (select "+cur+" (pr "+a.Arr+" i!o)) (select "+old+" (pr "+a.Arr+" i!o)))) :pattern ((select "+cur+" (pr "+a.Arr+" i!o))) :qid sameOutside))")
+				})
+				return boolV(smtAnd(cs...))
 			case "seqEq":
 				as := args()
 				return boolV(vc.deepEq(sc, as[0], sc.cur, as[1], sc.cur))
